@@ -159,7 +159,7 @@ def keys_of(case):
         k += b'%dl' % case['off']
     for cmd, cnt, ast, so in case['steps']:
         if cmd in '/?':
-            k += cnt.encode() + cmd.encode() + (typed_pat(ast, cmd).encode('utf-8') if ast is not None else b'') + ((cmd + so).encode() if so else (cmd.encode() if case['idx'] % 3 == 0 else b'')) + b'\n'      # (closing delimiter: optional)
+            k += cnt.encode() + cmd.encode() + (typed_pat(ast, cmd).encode('utf-8') if ast is not None else b'') + ((cmd + so).encode() if so else ((cmd + ['', '', ' ', '\t', '  '][case['idx'] % 5]).encode() if case['idx'] % 3 == 0 else b'')) + b'\n'      # (closing delimiter: optional; blanks after it are no offset)
         elif cmd == '^A':
             k += cnt.encode() + b'\x01'
         else:
